@@ -320,8 +320,28 @@ func applyDeclaredDefaults(operation *ast.OperationDefinition, request *requests
 		if request.Variables == nil {
 			request.Variables = make(map[string]interface{})
 		}
-		request.Variables[vd.Variable] = value
+		request.Variables[vd.Variable] = emptyListsNotNil(value)
 	}
+}
+
+// emptyListsNotNil: (*ast.Value).Value collects the elements of a list literal by appending to a nil
+// slice, so an EMPTY list literal comes back as a nil []interface{}, which encoding/json writes as
+// `null`. The default `[]` (also nested: `{tags: []}`, `[[]]`) has to travel as `[]`.
+func emptyListsNotNil(v interface{}) interface{} {
+	switch x := v.(type) {
+	case []interface{}:
+		out := make([]interface{}, len(x))
+		for i, e := range x {
+			out[i] = emptyListsNotNil(e)
+		}
+		return out
+	case map[string]interface{}:
+		for k, e := range x {
+			x[k] = emptyListsNotNil(e)
+		}
+		return x
+	}
+	return v
 }
 
 func (g *Gateway) parseIntrospectionQuery(plan *planner.QueryPlan, request *requests.Request) *Result {
